@@ -14,7 +14,7 @@ import (
 func init() {
 	register(&Prop{
 		ID:          "C20",
-		Explanation: "Decides the synchronisation discipline (not the schedules): every access to htpasswdMap.users outside the construction set (functions whose receiver is a fresh, unpublished allocation) happens on paths where the map's rwm is held — read or write lock for loads, write lock for stores — by a must-hold lock walk (Lock/RLock gen, Unlock/RUnlock kill, deferred unlock = held to exit); no map reachable through a published htpasswdMap is updated or deleted from outside the construction set, the reload installs a map built locally by createHtpasswdMap, and Validate answers true only by comparing the presented password with the entry it read from users; the address of UserMap.m flows only into atomic.LoadPointer/StorePointer, the stored pointers are addresses of local maps that receive no update after the store, and readers only index; in both loaders the swap is reachable only on paths where every CSV read returned without error (or io.EOF for incremental reads) and, for htpasswd, createHtpasswdMap returned no error. Added during the build: reloads are totally ordered and none is skipped — the watcher package starts exactly one goroutine, file events are received at one site, every received event goes to filterEvent, filterEvent is driven only from the event loop and calls action() synchronously for every selected event (R5, partly shared with C08.R6). Round 3: a reload installs only a non-empty freshly parsed map and the reloaded map is the only basic.Validator implementation (R6).",
+		Explanation: "Decides the synchronisation discipline (not the schedules): every access to htpasswdMap.users outside the construction set (functions whose receiver is a fresh, unpublished allocation) happens on paths where the map's rwm is held — read or write lock for loads, write lock for stores — by a must-hold lock walk (Lock/RLock gen, Unlock/RUnlock kill, deferred unlock = held to exit); no map reachable through a published htpasswdMap is updated or deleted from outside the construction set, the reload installs a map built locally by createHtpasswdMap, and Validate answers true only by comparing the presented password with the entry it read from users; the address of UserMap.m flows only into atomic.LoadPointer/StorePointer, the stored pointers are addresses of local maps that receive no update after the store, and readers only index; in both loaders the swap is reachable only on paths where every CSV read returned without error (or io.EOF for incremental reads) and, for htpasswd, createHtpasswdMap returned no error. Added during the build: reloads are totally ordered and none is skipped — the watcher package starts exactly one goroutine, file events are received at one site, every received event goes to filterEvent, filterEvent is driven only from the event loop and calls action() synchronously for every selected event (R5, partly shared with C08.R6). Round 3: a reload installs only a non-empty freshly parsed map and the reloaded map is the only basic.Validator implementation (R6). Round 4: the configured paths of the two credential files are never rewritten after loading and flow only to their loaders' constructors, emptiness tests, log lines and a short list of library calls that neither hold the file nor change the option (R7).",
 		NotDecided:  "interleavings themselves (this is the necessary discipline a race detector would sample); fsnotify event semantics and file-system atomicity of rewrites.",
 		Run:         runC20,
 	})
@@ -79,6 +79,7 @@ func runC20(c *Ctx) {
 	r.Rule("R3-atomic-discipline", "UserMap.m only through atomic.LoadPointer/StorePointer; stored maps are not updated afterwards; readers only index", 6)
 	r.Rule("R5-serial-reloads", "reloads are totally ordered and none is skipped: one goroutine, one receive site for watcher events, every received event handed to filterEvent, action() called synchronously; every selected event reloads (shared with C08.R6)", 5)
 	r.Rule("R6-reload-complete", "a reload installs only a non-empty freshly parsed map; the reloaded map is the only basic.Validator implementation", 2)
+	r.Rule("R7-credential-path-as-configured", "the configured paths of the htpasswd and authenticated-e-mails files are never rewritten after loading and flow only to their loader/watcher constructors (besides emptiness tests and log lines)", 2)
 	r.Rule("R4-failed-parse-keeps-old", "the swap is reachable only after error-free parsing", 2)
 
 	usersF := c.Field("R1-lock-discipline", "pkg/authentication/basic.htpasswdMap.users")
@@ -311,6 +312,7 @@ func runC20(c *Ctx) {
 	}
 	checkHtpasswdValidate(c, rule)
 	runC20R5(c, "R5-serial-reloads")
+	runC20R7(c, "R7-credential-path-as-configured")
 	runC20R6(c, "R6-reload-complete")
 
 	// ---- R3 ---------------------------------------------------------------------------------
@@ -746,5 +748,117 @@ func runC20R6(c *Ctx, rule string) {
 	}
 	if n == 0 {
 		c.R.Unknown(rule, "validator-impl|none", "-", "no implementation of basic.Validator found")
+	}
+}
+
+// runC20R7: a reload happens because the watcher, armed on the path the operator configured, sees that path change.
+// Two ways to lose it without touching watcher or loaders: (a) rewriting the option to a "canonical" path (symlinks
+// resolved) — a ConfigMap-style update re-points the symlink and the resolved target is never written again;
+// (b) anything else opening the file and keeping it open — the kernel then reports the replacement as an attribute
+// change of the old inode, which the event filter ignores. Decided structurally: the two option fields are stored
+// only in option loading, and every use of a loaded value is an emptiness test, a log argument, or the argument of
+// the reviewed constructor of its loader (which are covered by R1–R6).
+func runC20R7(c *Ctx, rule string) {
+	consumers := map[string]bool{
+		"main.NewValidator": true, // -> NewUserMap -> WatchFileForUpdates + LoadAuthenticatedEmailsFile
+		"pkg/authentication/basic.NewHTPasswdValidator": true, // -> loadHTPasswdFile + WatchFileForUpdates
+	}
+	for name := range consumers {
+		c.Fn(rule, name)
+	}
+	isLogSink := func(mi *ssa.MakeInterface) bool {
+		if mi.Referrers() == nil {
+			return false
+		}
+		for _, r := range *mi.Referrers() {
+			st, ok := r.(*ssa.Store)
+			if !ok {
+				if _, dbg := r.(*ssa.DebugRef); dbg {
+					continue
+				}
+				return false
+			}
+			ia, ok := st.Addr.(*ssa.IndexAddr)
+			if !ok {
+				return false
+			}
+			arr, ok := ia.X.(*ssa.Alloc)
+			if !ok || arr.Referrers() == nil {
+				return false
+			}
+			for _, ar := range *arr.Referrers() {
+				sl, ok := ar.(*ssa.Slice)
+				if !ok || sl.Referrers() == nil {
+					continue
+				}
+				for _, u := range *sl.Referrers() {
+					ci, ok := u.(ssa.CallInstruction)
+					if !ok {
+						return false
+					}
+					sc := ci.Common().StaticCallee()
+					if sc == nil || sc.Pkg == nil {
+						return false
+					}
+					if pk := prog.Short(sc.Pkg.Pkg.Path()); pk != "pkg/logger" && pk != "fmt" {
+						return false
+					}
+				}
+			}
+		}
+		return true
+	}
+	for _, name := range []string{"HtpasswdFile", "AuthenticatedEmailsFile"} {
+		f := c.Field(rule, "pkg/apis/options.Options."+name)
+		if f == nil {
+			continue
+		}
+		n, bad := 0, false
+		for _, ref := range c.fieldRefs(f) {
+			if strings.HasPrefix(prog.Short(prog.FnPkg(ref.Fn).Path()), "pkg/apis/options") {
+				continue
+			}
+			if ref.Store != nil {
+				bad = true
+				c.bad(rule, "path-rewritten|"+name+"|"+fnKey(ref.Fn), ref.In, "Options."+name+" is rewritten after loading: the watcher is then armed on a path other than the one the operator maintains (a resolved symlink target is never updated again), so later contents are never loaded", nil, 0)
+				continue
+			}
+			ld, ok := ref.In.(*ssa.UnOp)
+			if !ok || ld.Referrers() == nil {
+				continue
+			}
+			n++
+			for _, u := range *ld.Referrers() {
+				okUse := false
+				switch x := u.(type) {
+				case *ssa.DebugRef:
+					okUse = true
+				case *ssa.BinOp:
+					okUse = x.Op == token.EQL || x.Op == token.NEQ
+				case *ssa.MakeInterface:
+					okUse = isLogSink(x)
+				case ssa.CallInstruction:
+					if sc := x.Common().StaticCallee(); sc != nil && consumers[prog.Name(sc)] {
+						okUse = true
+					} else if sc != nil && sc.Pkg != nil {
+						// library calls that neither keep the file open nor change the option
+						switch pk := sc.Pkg.Pkg.Path(); {
+						case pk == "os" && (sc.Name() == "Stat" || sc.Name() == "Lstat"), pk == "path/filepath", pk == "strings", pk == "path":
+							okUse = true
+						}
+					}
+				}
+				if !okUse {
+					bad = true
+					c.bad(rule, "path-flow|"+name+"|"+fnKey(ref.Fn), u, "the configured path of the "+name+" flows somewhere other than its loader's constructor, an emptiness test or a log line: whatever else resolves, opens or holds that file can keep the watcher from ever seeing it replaced", nil, 0)
+				}
+			}
+		}
+		switch {
+		case n == 0:
+			c.R.Unknown(rule, "path-flow|"+name, "-", "no reader of Options."+name+" found")
+		case !bad:
+			c.R.OK(rule, "path-flow|"+name, "-", sprintf("%d load(s) of Options.%s: emptiness tests, log lines and the loader's constructor only; no store outside option loading", n, name))
+		}
 	}
 }
